@@ -118,3 +118,17 @@ func GenConflictScenario(t *rapid.T) []Op {
 	ops = append(ops, Op{K: "commit", Last: true})
 	return ops
 }
+
+// GenLateOps draws operations addressed to the transaction that ended most recently.
+func GenLateOps(t *rapid.T) []Op {
+	var ops []Op
+	for n := rapid.IntRange(1, 5).Draw(t, "nlate"); n > 0; n-- {
+		k := rapid.SampledFrom([]string{"get", "getr", "keys", "commit", "rollback", "set", "del", "get", "commit"}).Draw(t, "lateKind")
+		op := Op{K: k, Late: true, Recent: true, Key: rapid.IntRange(0, 3).Draw(t, "lateKey")}
+		if k == "set" {
+			op.Len = rapid.IntRange(0, 9).Draw(t, "lateLen")
+		}
+		ops = append(ops, op)
+	}
+	return ops
+}
